@@ -618,6 +618,7 @@ pub struct Watch {
     owner: Vec<u32>,
     pub overlaps: Vec<(usize, u32, u32)>,
     pub enabled: bool,
+    pub switches_at_begin: u64,
 }
 pub static WATCH: Mutex<Option<Watch>> = Mutex::new(None);
 static SNAPSHOTS_ON: std::sync::atomic::AtomicBool = std::sync::atomic::AtomicBool::new(false);
@@ -640,6 +641,7 @@ fn set_watch(dst: &Backing) {
         owner: vec![0; dst.vec.len()],
         overlaps: Vec::new(),
         enabled: true,
+        switches_at_begin: 0,
     });
 }
 fn clear_watch() {
@@ -661,10 +663,20 @@ fn clear_watch() {
 fn job_hook(begin: bool, phase: u32, job: u32) {
     let mut g = WATCH.lock().unwrap();
     let Some(w) = g.as_mut() else { return };
+    if !w.enabled {
+        return;
+    }
     let cur = unsafe { std::slice::from_raw_parts(w.ptr as *const u8, w.len) };
+    let switches = crate::sched::SWITCHES.load(Ordering::Relaxed);
     if begin {
         w.snapshot.clear();
         w.snapshot.extend_from_slice(cur);
+        w.switches_at_begin = switches;
+    } else if switches != w.switches_at_begin {
+        // another task ran between the begin and the end of this job (a scheduling point
+        // inside the job): snapshot differences cannot be attributed to one job any more
+        w.enabled = false;
+        w.overlaps.clear();
     } else if w.snapshot.len() == w.len {
         let me = ((phase << 12) | (job & 0xfff)) + 1;
         for i in 0..w.len {
